@@ -154,6 +154,8 @@ struct Exec {
     last_log: Vec<usize>,
     thash: Vec<u64>,
     thash2: Vec<u64>,
+    /// the thread that spawned each thread
+    parent: Vec<usize>,
     skip0: u32,
     diverged: bool,
     last_event: Instant,
@@ -214,7 +216,8 @@ impl Exec {
             St::Running | St::AtPoint => true,
             St::Spinning(p) => self.progress > p,
             St::BlockedJoin(k) => self.st[k] == St::Finished,
-            St::BlockedAll => self.st[1..].iter().all(|s| *s == St::Finished),
+            // leaving a thread scope: every thread spawned by this thread has finished (scopes may nest)
+            St::BlockedAll => (1..self.st.len()).all(|k| self.parent[k] != t || self.st[k] == St::Finished),
             St::Finished => false,
         }
     }
@@ -590,6 +593,7 @@ pub fn before_spawn() -> usize {
             ex.last_log.push(usize::MAX);
             ex.thash.push(hash64(id as u64));
             ex.thash2.push(hash64(0x55 ^ ((id as u64) << 8)));
+            ex.parent.push(me);
             ex.announced += 1;
             id
         }
@@ -685,6 +689,7 @@ pub fn run_one<R>(cfg: &Config, prefix: &[u8], body: impl FnOnce() -> R) -> (R, 
             last_log: vec![usize::MAX],
             thash: vec![hash64(0)],
             thash2: vec![hash64(0x55)],
+            parent: vec![usize::MAX],
             skip0: 0,
             diverged: false,
             last_event: Instant::now(),
